@@ -11,8 +11,14 @@
 (*   plus mixed-arity families (arity filter),                             *)
 (*   plus focus groups: every family of 1..MaxFam candidates of a small    *)
 (*   themed pool (overloads that differ only in a concrete scalar          *)
-(*   parameter; REF / SIGNAL nested inside TSD / TSL / TSB patterns) x the *)
+(*   parameter; REF / SIGNAL nested inside TSD / TSL / TSB patterns;       *)
+(*   output patterns with a size variable that no input binds next to      *)
+(*   legitimate rivals; k = "v": VARIADIC candidates next to fixed-arity   *)
+(*   rivals of equal / greater specificity, argument tuples of length 0..4 *)
+(*   with time-series and plain values in heterogeneous tails) x the       *)
 (*   argument tuples that separate them.                                   *)
+(* Fault # "none" runs level B with a named slip (Resolution.tla Faults):  *)
+(* those configurations MUST violate InvLevelA (hg.expect_violation).      *)
 (* Invariants: level B satisfies every level-A clause (AFail = ""), the    *)
 (* outcome is the same in every registration order, and the declarative    *)
 (* (A) and the sequential (B) matcher agree on every candidate.            *)
@@ -29,7 +35,13 @@ CONSTANTS UIdx,      \* arity-1 candidates used (indices into AllU)
           WideU, WideB,   \* wider pools (indices into AllU / AllB) from which families of one and two are drawn as well
           MixU, MixB, MixAU, MixAB,   \* mixed-arity families: one of MixU with one or two of MixB
           Focus,     \* focus groups: set of [k |-> "u" | "b", c |-> indices into AllU / AllB, a |-> indices into ArgsU / ArgsB]
+                     \*            or of [k |-> "v", c |-> indices into AllC (variadic + fixed-arity), a |-> indices into ArgsV]
+          Fault,     \* "none" or a named fault of level B
           Emit
+
+ASSUME Fault \in Faults
+ASSUME \A i \in 1..NV : AllV[i].v /\ Len(AllV[i].ps) >= 1 /\ ~IsScalarTerm(TailPat(AllV[i]))
+ASSUME \A i \in 1..(NU + NB) : ~AllC[i].v
 
 VARIABLES fam, ak, ai, res
 vars == <<fam, ak, ai, res>>
@@ -48,7 +60,7 @@ Perms(S) == IF S = {} THEN {<<>>} ELSE UNION {{<<e>> \o p : p \in Perms(S \ {e})
 GB == {NU + i : i \in BIdx}            \* global indices of the arity-2 candidates in use
 MixFams == {{u} \cup g : u \in MixU, g \in UpTo({NU + i : i \in MixB}, 2)}
 
-Args   == IF ak = "u" THEN ArgsU[ai] ELSE ArgsB[ai]
+Args   == IF ak = "u" THEN ArgsU[ai] ELSE IF ak = "b" THEN ArgsB[ai] ELSE ArgsV[ai]
 FamSeq(f) == [i \in 1..Len(f) |-> AllC[f[i]]]
 IsAsc(f)  == \A i \in 1..(Len(f) - 1) : f[i] < f[i + 1]
 Asc(f)    == CHOOSE p \in Perms(Range(f)) : IsAsc(p)
@@ -58,7 +70,7 @@ Init == \/ \E f \in UpTo(UIdx, MaxFam) \cup UpTo(WideU, 2) : \E a \in AUIdx : In
         \/ \E f \in UpTo(GB, MaxFam) \cup UpTo({NU + i : i \in WideB}, 2) : \E a \in ABIdx : InitWith(f, "b", a)
         \/ \E f \in MixFams : \E a1 \in MixAU : InitWith(f, "u", a1)
         \/ \E f \in MixFams : \E a2 \in MixAB : InitWith(f, "b", a2)
-        \/ \E g \in Focus : \E f \in UpTo({(IF g.k = "u" THEN 0 ELSE NU) + i : i \in g.c}, MaxFam) : \E a3 \in g.a :
+        \/ \E g \in Focus : \E f \in UpTo({(IF g.k = "b" THEN NU ELSE 0) + i : i \in g.c}, MaxFam) : \E a3 \in g.a :
                InitWith(f, g.k, a3)
 
 Payload == [fam  |-> [i \in 1..Len(fam) |-> AllC[fam[i]].l],
@@ -67,7 +79,7 @@ Payload == [fam  |-> [i \in 1..Len(fam) |-> AllC[fam[i]].l],
             pred |-> [i \in 1..Len(fam) |-> PredictB(AllC[fam[i]], Args)]]
 
 Resolve == /\ res = NoRes
-           /\ res' = ResolveB(FamSeq(fam), Args)
+           /\ res' = ResolveFB(FamSeq(fam), Args, Fault)
            /\ UNCHANGED <<fam, ak, ai>>
            /\ (Emit /\ IsAsc(fam)) => PrintT(<<"RES", ToJson([Payload EXCEPT !.exp = res'])>>)
 
@@ -77,18 +89,18 @@ Spec == Init /\ [][Next]_vars
 -----------------------------------------------------------------------------
 Done == res.kind # "none"
 RankFn == [l \in {AllC[fam[i]].l : i \in 1..Len(fam)} |->
-              LET c == CHOOSE c \in Range(FamSeq(fam)) : c.l = l IN RankB(c) + TryMatchB(c, Args).adj]
+              LET c == CHOOSE c \in Range(FamSeq(fam)) : c.l = l IN RankB(c) + TryMatchFB(c, Args, Fault).adj]
 
 (* B => A: the implementation-shaped model satisfies every clause of the property *)
 InvLevelA == Done => AFail(Range(FamSeq(fam)), Args, RankFn, res) = ""
 
 (* the outcome does not depend on the registration order *)
-InvOrderIndependent == Done => Canon(res) = Canon(ResolveB(FamSeq(Asc(fam)), Args))
+InvOrderIndependent == Done => Canon(res) = Canon(ResolveFB(FamSeq(Asc(fam)), Args, Fault))
 
 (* the declarative and the sequential matcher are the same relation and produce the same substitution *)
 InvMatchersAgree ==
     Done => \A c \in Range(FamSeq(fam)) :
-               LET t == TryMatchB(c, Args) IN
+               LET t == TryMatchFB(c, Args, Fault) IN
                /\ t.ok = MatchesA(c, Args)
                /\ t.ok => MapPairs(t.m) = CandWalk(c, Args).cs
 
@@ -109,7 +121,7 @@ InvSubsumption ==
         IN \A q \in F : (q # s /\ MatchesA(q, Args) /\ MoreGeneral(s, q)) => SubsumptionNotAsserted(s, q)
 
 (* the pools, printed once so that the glue can render candidates / arguments in the driver's language *)
-ASSUME PrintT(<<"POOL", ToJson([c |-> AllC, au |-> ArgsU, ab |-> ArgsB])>>)
+ASSUME PrintT(<<"POOL", ToJson([c |-> AllC, au |-> ArgsU, ab |-> ArgsB, av |-> ArgsV])>>)
 
 (* pools for the configurations *)
 QU  == {1, 2, 3, 4, 7, 8, 9, 10, 12, 15, 16, 17, 18, 20}
@@ -121,15 +133,31 @@ QMB == {1, 3, 14}
 QMAU == {1, 9, 11}
 QMAB == {1, 4, 12}
 (* focus groups (all tiers) *)
-QFocus == {[k |-> "u", c |-> {2, 18, 19, 30}, a |-> {11, 22, 23}],                  \* scalar parameter: exact / converted / variable / promoted
+BI(i) == NU + i               \* index into AllC of the i-th arity-2 candidate
+VI(i) == NU + NB + i          \* index into AllC of the i-th variadic candidate
+QFocusFixed ==
+          {[k |-> "u", c |-> {2, 18, 19, 30}, a |-> {11, 22, 23}],                  \* scalar parameter: exact / converted / variable / promoted
            [k |-> "b", c |-> {7, 15, 18, 29, 30, 32, 33}, a |-> {4, 5, 14, 18, 36}],  \* overloads that differ only in a concrete scalar parameter
            [k |-> "u", c |-> {1, 11, 12, 25, 35, 36, 39}, a |-> {5, 6, 19, 24, 25}],   \* REF / SIGNAL nested in a TSD value
            [k |-> "u", c |-> {1, 9, 10, 14, 37, 38, 40}, a |-> {3, 8, 16, 17, 26}],    \* ... in a TSL element / in bundle fields
            [k |-> "b", c |-> {2, 12, 21, 31, 34}, a |-> {9, 23, 34, 35}]}             \* ... next to a parameter sharing the variable
+(* an output pattern whose SIZE variable no input binds (never a match), alone and next to legitimate rivals of lower / equal / higher rank *)
+QFocusSize ==
+          {[k |-> "u", c |-> {1, 2, 8, 41, 42, 43, 44}, a |-> {1, 3, 4, 16}],
+           [k |-> "b", c |-> {1, 5, 10, 35, 36}, a |-> {1, 7, 13}]}
+(* variadic candidates next to fixed-arity rivals; tails of length 0..3 *)
+QFocusVar ==
+          {[k |-> "v", c |-> {VI(1), VI(2), VI(3), VI(7), VI(12), 4, BI(4)}, a |-> {1, 2, 3, 7, 8, 9, 10, 14, 16, 19}],      \* heterogeneous tails, tail-only variable
+           [k |-> "v", c |-> {VI(4), VI(5), VI(6), VI(10), VI(13), BI(3), BI(5)}, a |-> {2, 6, 7, 10, 11, 13, 14, 15, 31, 32}], \* fixed bindings constrain every tail argument
+           [k |-> "v", c |-> {VI(2), VI(8), VI(9), VI(16), VI(17), 8}, a |-> {2, 21, 22, 23, 24}],                            \* size variables in the tail
+           [k |-> "v", c |-> {VI(2), VI(3), VI(11), VI(12), VI(14), VI(15)}, a |-> {2, 25, 26, 27, 28, 29, 30}],              \* REF / SIGNAL / concrete / TSD tails
+           [k |-> "v", c |-> {VI(3), VI(4), VI(18), BI(3)}, a |-> {6, 7, 13, 14, 17, 18, 20, 34}]}                           \* two fixed parameters + tail of 0..2
+QFocus == QFocusFixed \cup QFocusSize \cup QFocusVar
+Empty == {}
 TU  == 1..NU
 TB  == 1..NB
-T3U == TU \ ({5, 21, 22, 25, 26, 28, 30, 32, 33, 34} \cup 35..40)     \* families of three: 24 + 20 candidates
-T3B == TB \ ({16, 17, 18, 21, 22, 24, 26, 28} \cup 29..34)
+T3U == TU \ ({5, 21, 22, 25, 26, 28, 30, 32, 33, 34} \cup 35..44)     \* families of three: 24 + 20 candidates
+T3B == TB \ ({16, 17, 18, 21, 22, 24, 26, 28} \cup 29..36)
 TAU == 1..Len(ArgsU)
 TAB == 1..Len(ArgsB)
 =============================================================================
